@@ -182,6 +182,13 @@ def directed():
         for cs2 in (slice(None, None, -2), slice(-2, None, -3), slice(1, None, 2)):
             yield {"steps": steps0 + [{"op": "sel", "v": "z", "u": u, "rs": slice(None), "cs": cs2, "has_cs": True}, {"op": "obs", "u": "z", "what": "tolist", "arg": None},
                                       {"op": "obs", "u": "z", "what": "sum1", "arg": None}], "hazard": False}
+    # column selections of column selections whose steps multiply to more than 2**31 (on a row of 100003 cells): one cell per row is left, the right one
+    wide = [list(range(100003)), [7, 8, 9, 10, 11]]
+    for s1, s2 in ((50000, 50000), (-50000, -50000), (46341, 46341), (-65536, -32768), (3, -1000000), (70000, -40000), (-70000, 40000), (2 ** 31, 2), (-3, 2 ** 40)):
+        steps_ = [{"op": "init", "v": "a0", "rows": wide}, {"op": "sel", "v": "a1", "u": "a0", "rs": slice(None), "cs": slice(None, None, s1), "has_cs": True},
+                  {"op": "sel", "v": "a2", "u": "a1", "rs": slice(None), "cs": slice(None, None, s2), "has_cs": True}, {"op": "obs", "u": "a2", "what": "tolist", "arg": None},
+                  {"op": "obs", "u": "a2", "what": "sum1", "arg": None}, {"op": "obs", "u": "a1", "what": "meta", "arg": None}]
+        yield {"steps": steps_, "hazard": False}
     # hundreds of equally long rows (a buffer of several kilobytes) selected through row lists that are sorted and repeat rows, keep the first and the last
     # row, are permuted blocks, ...: the derived array must hold exactly the selected rows
     many = [[100 * i + j for j in range(3)] for i in range(700)]
